@@ -375,5 +375,5 @@ func checkFunc(c funcCase) *vk.Failure {
 }
 
 func TestFuncs(t *testing.T) {
-	vk.Run(t, "func", vk.Opts{Quick: 900, Thorough: 25000}, drawFunc, checkFunc)
+	vk.Run(t, "func", vk.Opts{Quick: 2700, Thorough: 75000}, drawFunc, checkFunc)
 }
